@@ -170,8 +170,14 @@ def run(analysis: Analysis, tier: str) -> RuleResult:
     order = [k for k in kinds if k in ("sensor", "child", "intkeys")]
     res.add("C11-R3", "persistence:MySensorsJSONDecoder / integer keys are restored, after the object recognisers", order == ["sensor", "child", "intkeys"], wd, f"branch order {kinds}")
     intbranch = [br for br, k in zip(branches, kinds) if k == "intkeys"]
-    ok_int = bool(intbranch) and any(isinstance(n, ast.DictComp) and unparse(n.key).startswith("int(") for n in ast.walk(intbranch[0]))
+    comps = [n for n in ast.walk(intbranch[0]) if isinstance(n, ast.DictComp) and unparse(n.key).startswith("int(")] if intbranch else []
+    ok_int = bool(comps)
     res.add("C11-R3", "persistence:MySensorsJSONDecoder / all-digit keys become int keys", ok_int, wd, "{int(k): v for k, v in obj.items()}")
+    for n in comps:
+        gen = n.generators[0]
+        tgt = gen.target.elts if isinstance(gen.target, ast.Tuple) else []
+        whole = len(n.generators) == 1 and not gen.ifs and len(tgt) == 2 and isinstance(n.value, ast.Name) and isinstance(tgt[1], ast.Name) and n.value.id == tgt[1].id and unparse(n.key) == f"int({unparse(tgt[0])})" and unparse(gen.iter).endswith(".items()")
+        res.add("C11-R3", "persistence:MySensorsJSONDecoder / the integer-key restoration keeps every entry and every value", whole, common.where(analysis, dec, n), "no filter, value passed through" if whole else f"`{unparse(n)[:90]}` filters or rewrites entries: the same branch restores the node map, the child maps and the value maps, so entries are lost on JSON load only")
     plain = {a for a in s_init if not a.startswith("_")}
     settable = plain | {name for name, pr in sensor.props.items() if "set" in pr}
     missing = enc_s - settable
@@ -210,6 +216,16 @@ def run(analysis: Analysis, tier: str) -> RuleResult:
     if cs is not None:
         txt = unparse(cs.node)
         res.add("C11-R2", "sensor:ChildSensor.__setstate__ / restores the whole instance dict", "self.__dict__.update(state)" in txt, common.where(analysis, cs, cs.node), "pickle restores id, type, description, values")
+    # R5: what a save writes is the dump of the sensor map and nothing else (shared with C12-R1/R2)
+    from . import c12, persist
+
+    tmp = RuleResult(PROP)
+    for summ in common.pmap(analysis, c12.save_worker, [(e, (analysis.versions[-1], "serial", "sync")) for e in persist.EXTS]):
+        c12.analyse_save_rows(tmp, summ)
+    for o in tmp.obs:
+        if "written from empty" in o.construct or "sensor map is what is dumped" in o.construct:
+            res.add("C11-R5", o.construct, o.ok, o.where, o.detail, o.witness)
+    res.need("C11-R5", 2, "save-path obligations")
     res.need("C11-R1", 5, "field agreement obligations")
     res.units = {"classes": ["sensor:Sensor", "sensor:ChildSensor", "persistence:MySensorsJSONEncoder", "persistence:MySensorsJSONDecoder"], "source_digest": analysis.p.digest()}
     res.not_decided = ["value-level exactness (Unicode, JSON number/str fidelity)", "equality of the two formats on actual states"]
